@@ -63,6 +63,22 @@ if prog.get("fds") is not None:
     rep = ex1.submit(T.report, keys).result(timeout=60)
     ex1.shutdown()
     emit(part="fds_env", baseline=base, worker=rep, extras=extras, parent_env=parent_env, overlay=prog["env"])
+    if prog.get("env_change"):
+        # a worker that joins the pool later (respawn after an idle time-out) must see the parent's environment as it is
+        # THEN, overlaid with env=
+        ex2 = ProcessPoolExecutor(max_workers=1, env=prog["env"] or None, timeout=0.2)
+        os.environ["C18_DYN"] = "before"
+        os.environ["C18_DEL"] = "present"
+        first = ex2.submit(T.report, keys + ["C18_DYN", "C18_DEL", "C18_LATE"]).result(timeout=60)
+        os.environ["C18_DYN"] = "after"
+        del os.environ["C18_DEL"]
+        os.environ["C18_LATE"] = "late"
+        time.sleep(1.0)
+        second = ex2.submit(T.report, keys + ["C18_DYN", "C18_DEL", "C18_LATE"]).result(timeout=60)
+        ex2.shutdown()
+        parent_now = {k: os.environ.get(k) for k in keys + ["C18_DYN", "C18_DEL", "C18_LATE"]}
+        emit(part="env_change", first_pid=first["pid"], second_pid=second["pid"], second_env=second["env_at_startup"],
+             parent_now=parent_now, overlay=prog["env"])
 
 # ---------------------------------------------------------------- exit status and sentinel
 for i, spec in enumerate(prog.get("exits", [])):
